@@ -61,6 +61,7 @@ def run(F, rep, tier):
     layout_siblings_rule(F, rep)
     utf8_mask_rule(F, rep)
     comment_extent_rule(F, rep)
+    layout_fold_rule(F, rep)
     char_class_rule(F, rep)
     binary_action_rule(F, rep)
     a = lalr.build_lalr(g)
@@ -1057,3 +1058,73 @@ def comment_extent_rule(F, rep):
     else:
         rep.ok(rid, "comment:extent", "%d texts: the cursor stands exactly behind the comment" % ok)
     rep.floor(rid, "comment texts folded", ok + len(bad), 18)
+
+
+LAYOUT_TEXTS = ["x", "  x", "\t\n x", "\r\n\r\nx", "\u00a0x", "\u2003\u3000x", " /* a */x", "/* a */ x", "/* a *//* b */1", " /* a */ // b\n  /* c */x", "// a\n// b\n1", "/* a */\n\n/* b */\t// c\n  +",
+                "  ", "", "/* a */", " // a", "/x", "- /* a */ 1", "/* a */ /* b */ /* c */ /* d */ /* e */ z"]
+WHITE = set(" \t\n\u000b\u000c\r\u0085\u00a0\u1680\u180e\u2000\u2001\u2002\u2003\u2004\u2005\u2006\u2007\u2008\u2009\u200a\u200b\u2028\u2029\u202f\u205f\u3000\ufeff")
+
+
+def layout_fold_rule(F, rep):
+    """R06.14: 'extra white space, line breaks and comments between tokens do not change the tree' - at the lexer's entry to a token (read_input) everything that separates
+    two tokens is skipped: any sequence of white space and comments, however long.  read_input is folded on a table of texts; afterwards the cursor must stand on the first
+    character that is neither white space nor part of a comment (or at the end of the text)."""
+    from hireval import Evaluator, State, TooManyPaths
+    rid = rep.rule("R06.14", "the layout skipper at the entry to a token, folded on a table of texts, leaves the cursor on the first character that is neither white space nor inside a comment")
+    cands = [n for n in F.hir if n.startswith("dmntk_feel_parser::lexer::Lexer") and n.split("::")[-1] == "read_input"]
+    if len(cands) != 1:
+        rep.missing_anchor(rid, "Lexer::read_input")
+        return
+    fn = cands[0]
+    h = F.hir[fn]
+
+    def want(t):
+        i = 0
+        while True:
+            j = i
+            while j < len(t) and t[j] in WHITE:
+                j += 1
+            if t.startswith("/*", j):
+                k = t.find("*/", j + 2)
+                j = len(t) if k < 0 else k + 2
+            elif t.startswith("//", j):
+                k = t.find("\n", j)
+                j = len(t) if k < 0 else k
+            if j == i:
+                return i
+            i = j
+    helpers = {n for n in F.hir if n.startswith("dmntk_feel_parser::lexer::") and "{closure" not in n and n != fn and n.split("::")[-1] not in ("next_token", "read_next_token")}
+    bad, unknown, ok = [], [], 0
+    for t in LAYOUT_TEXTS:
+        ev = Evaluator(F, ints=True, max_paths=1500, inline=helpers)
+        ev.vecs = True
+        ev.crate = h.get("_crate")
+        st = State({})
+        lex = ("rec", {"input": ("array", [("lit", c) for c in t]), "position": ("lit", 0)})
+        for p, a in zip(h["params"], [lex]):
+            ev.match(p, a, st.env)
+        try:
+            outs = list(ev.ev(h["body"], st))
+        except (TooManyPaths, ValueError, KeyError, TypeError, IndexError, RecursionError) as x:
+            unknown.append("%r: %s" % (t, type(x).__name__))
+            continue
+        pos = set()
+        for s2, v in outs:
+            me = s2.env.get("self")
+            p2 = me[1].get("position") if isinstance(me, tuple) and me and me[0] == "rec" else None
+            open_conds = [c for c in s2.conds if c not in (("loop-done",), ("loop-iteration",))]
+            pos.add(p2[1] if (not open_conds and isinstance(p2, tuple) and p2[0] == "lit" and isinstance(p2[1], int)) else None)
+        if len(pos) != 1 or None in pos:
+            unknown.append("%r: the cursor does not fold" % t)
+        elif pos != {want(t)}:
+            bad.append("%r: the cursor stops at %d, the next token begins at %d" % (t, pos.pop(), want(t)))
+        else:
+            ok += 1
+    where = "%s:%s" % (h["file"], h["line"])
+    if bad:
+        rep.violation(rid, "layout:read_input", "white space and comments in front of a token are not skipped completely (or too much is skipped): %s" % "; ".join(bad[:4]), where)
+    elif unknown:
+        rep.undecided(rid, "layout:read_input", "%d of %d texts fold, %d do not: %s" % (ok, len(LAYOUT_TEXTS), len(unknown), "; ".join(unknown[:2])))
+    else:
+        rep.ok(rid, "layout:read_input", "%d texts: the cursor stands on the first character of the next token" % ok)
+    rep.floor(rid, "layout texts folded", ok + len(bad), 15)
